@@ -5,6 +5,8 @@
 cd "$(dirname "$0")/.."
 for d in seeded/*/; do
   name=$(basename "$d")
+  # REEVAL_SKIP="name1 name2 ..." skips changes that were already re-evaluated
+  case " $REEVAL_SKIP " in *" $name "*) continue;; esac
   prop=$(echo "$name" | cut -d- -f1)
   extra=""
   case "$name" in
